@@ -13,9 +13,12 @@
     the O(n * depth) <= O(n^2) bound follows by the induction written in DESIGN.md (argued, not
     mechanised).
 """
+import hashlib
 import json
 import os
 import time
+
+from sx import runner  # noqa: E402
 
 PROPERTY = "C18"
 LEVEL = "model_checking"
@@ -155,10 +158,10 @@ def post(tier, results):
     violation = False
     nviol = 0
     inconclusive = False
-    os.makedirs("/verif/replays/C18", exist_ok=True)
+    os.makedirs(os.path.join(runner.REPLAY_DIR, "C18"), exist_ok=True)
     known = {}
     try:
-        with open("/verif/known_findings.json") as fh:
+        with open(runner.KNOWN) as fh:
             known = {f["signature"] for f in json.load(fh).get("findings", []) if f["property"] == "C18"}
     except FileNotFoundError:
         pass
@@ -176,7 +179,7 @@ def post(tier, results):
                 if not w:
                     continue
                 sig = f"exponential-regex:{p.get('name') or p.get('where')}:{_txt(w['prefix'])}+{_txt(w['pump'])}*"
-                path = f"/verif/replays/C18/{abs(hash(sig)) % 10**10}.json"
+                path = os.path.join(runner.REPLAY_DIR, "C18", hashlib.sha1(sig.encode()).hexdigest()[:10] + ".json")
                 with open(path, "w") as fh:
                     json.dump({"property": "C18", "signature": sig, "pattern": repr(p["pattern"]), "flags": p["flags"], "prefix": _txt(w["prefix"]), "pump": _txt(w["pump"]), "suffix": _txt(w["suffix"]), "validation": r.get("validation")}, fh, indent=1, default=repr)
                 if sig in known:
